@@ -20,7 +20,8 @@ func TestProp(t *testing.T) {
 		"values are compared after reference input coercion at the argument's type (list coercion, input field defaults, ID as string, numbers as exact decimals)",
 		"the upstream request is evaluated by this harness: CoerceVariableValues on the upstream operation's own variable definitions, then CoerceArgumentValues")
 	r.RequireLabel("oracle1:ok", "oracle2:ok", "mode:literal", "mode:variable", "expect:absent", "expect:null", "lit:escape-simple", "lit:escape-unicode",
-		"lit:escape-surrogate", "lit:block-string", "lit:block-indented", "lit:depth>=2", "num:exponent", "num:big-int", "lit:variable-inside")
+		"lit:escape-surrogate", "lit:block-string", "lit:block-indented", "lit:depth>=2", "num:exponent", "num:big-int", "lit:variable-inside",
+		"family:colliding-spellings", "family:invalid-utf8", "lit:del", "lit:c0-control", "lit:astral-nonprintable")
 	r.Regress(dispatch())
 	r.RunProbes(probes())
 	forwardPart.Run(r)
